@@ -41,6 +41,7 @@ type FieldPtr struct {
 	Base Value
 	ST   *types.Struct
 	Idx  int
+	NT   types.Type // pointee type of Base (named if the source type is)
 }
 type ElemPtr struct {
 	// element idx of heap array object `Ref` (slice backing or pointed-to array), or of a local array
@@ -311,7 +312,7 @@ func zipLeaves(a, b Value, f func(x, y *Node) *Node) Value {
 		if !ok || y.Idx != x.Idx {
 			panic("cannot merge distinct field pointers")
 		}
-		return &FieldPtr{Base: zipLeaves(x.Base, y.Base, f), ST: x.ST, Idx: x.Idx}
+		return &FieldPtr{Base: zipLeaves(x.Base, y.Base, f), ST: x.ST, Idx: x.Idx, NT: x.NT}
 	case *ElemPtr:
 		y, ok := b.(*ElemPtr)
 		if !ok {
